@@ -50,9 +50,6 @@ C01EvalFails(c) ==
 (* kind "evaldeep": a circuit with one path of more than a thousand gates.  c.order is a witness order (operands first,
    checked on the way), c.sample the gates whose recorded values are compared (the outputs, every 97th gate, the last
    ones); reachability is computed along the order, everything is linear in the number of gates. *)
-ReachAlong(G, order, S) ==
-  FoldLeft(LAMBDA seen, j : LET l == order[Len(order) + 1 - j] IN IF l \in seen THEN seen \cup SeqSet(G[l].o) ELSE seen,
-           S, [j \in 1 .. Len(order) |-> j])
 C01DeepFails(c) ==
   LET ck == c.c
       G == AsFcn(ck.g)
